@@ -464,3 +464,113 @@ class calc_trim_text:
         right_col = W(t, pos) - W(t, a.start_offs)      # column where the kept slice ends
         yield "right-pad-iff-wide-char-straddles-right-edge", eq(pr == 1, right_col == a.end_col - 1)
         yield "kept-slice-lies-inside-the-range", both(left_col >= a.start_col, right_col <= a.end_col)
+
+
+# ---- the process-global encoding state: urwid/util.py:set_encoding
+#
+# "under the active encoding (UTF-8, double-byte CJK, single-byte) ... Encoding text for output maps each DEC
+# line-drawing character to its alternate-charset byte": which of the three byte modes is active, and whether
+# apply_target_encoding translates the DEC graphics (`_use_dec_special`), is decided by set_encoding alone.  The
+# state before the call is an ARBITRARY member of the state space (globals_), so every clause below holds after
+# any history of earlier set_encoding calls: the new state is a function of the encoding name only.
+
+# spec table (get_encoding_mode's documentation: 'utf8' for UTF-8 encodings, 'wide' for CJK double-byte encodings,
+# 'narrow' for 8-bit encodings; names are case-insensitive) -- written out here, not read from the code
+SPEC_UTF8_NAMES = ("utf-8", "utf8", "utf")
+SPEC_WIDE_NAMES = ("euc-jp", "euc-kr", "euc-cn", "euc-tw", "gb2312", "gbk", "big5", "cn-gb", "uhc",
+                   "eucjp", "euckr", "euccn", "euctw", "cncb")
+# representatives of "any other name": single-byte codecs, the empty name, a name no codec has, near misses of
+# the distinguished names; and mixed-case spellings of names of each class
+SPEC_OTHER_NAMES = ("ascii", "iso8859-1", "koi8-r", "cp437", "", "no-such-codec", "utf-16", "utf-7", "euc", "big5hkscs", "shift_jis")
+SPEC_CASED_NAMES = ("UTF-8", "Utf8", "UTF", "EUC-JP", "Big5", "GBK", "EUC-KR", "GB2312", "ISO8859-1", "ASCII", "KOI8-R")
+ENC_NAMES = SPEC_UTF8_NAMES + SPEC_WIDE_NAMES + SPEC_OTHER_NAMES + SPEC_CASED_NAMES
+
+
+def spec_mode(name):
+    low = name.lower()
+    return "utf8" if low in SPEC_UTF8_NAMES else "wide" if low in SPEC_WIDE_NAMES else "narrow"
+
+
+ENC_STATE = dict(
+    _byte_encoding=Atom("utf8", "narrow", "wide"),
+    _use_dec_special=Bool,
+    _target_encoding=Atom(*dict.fromkeys([n.lower() for n in ENC_NAMES] + ["ascii"])),
+)
+
+
+def codec_known(name):
+    """The codec registry, external to urwid: an uninterpreted predicate of the (lower-cased) name.
+    Dual use: natively (replay) it is CPython's registry."""
+    if not V._current:
+        try:
+            "".encode(name)
+        except LookupError:
+            return False
+        return True
+    return mk_bool(z3.Function("codec$known", z3.IntSort(), z3.BoolSort())(name.e if isinstance(name, V.SAtom) else z3.IntVal(V.atom_code(name))))
+
+
+def _external_codec_lookup(ip, st, f, args, kwargs):
+    """`"".encode(name)` -- the codec machinery is external: it returns b"" when the registry knows the name and
+    raises LookupError when it does not (nothing else can happen for the empty string and a NUL-free name)."""
+    if getattr(f, "__name__", "") == "encode" and isinstance(getattr(f, "__self__", None), str) and f.__self__ == "" and len(args) == 1 and not kwargs:
+        from pyvc.engine import PyRaise, SExc
+        if st.branch(codec_known(args[0])):
+            return b""
+        raise PyRaise(SExc(LookupError, ("unknown encoding",), site="codecs (external)"))
+    return NotImplemented
+
+
+def _is_in(x, names):
+    return either(False, *[x == n for n in names])
+
+
+@contract(UT + "set_encoding", property="C11", globals_=ENC_STATE, inline=(SU + "set_byte_encoding",))
+class set_encoding:
+    params = dict(encoding=Atom(*ENC_NAMES))
+    result = None
+    raises = ()
+    call_real = staticmethod(_external_codec_lookup)
+
+    def ensures(a, result):
+        new = cur().ghost["globals"] if V._current else _NATIVE_POST
+        mode, dec, target = new["_byte_encoding"], new["_use_dec_special"], new["_target_encoding"]
+        enc = a.encoding
+        is_utf8 = _is_in(enc, [n for n in ENC_NAMES if spec_mode(n) == "utf8"])
+        is_wide = _is_in(enc, [n for n in ENC_NAMES if spec_mode(n) == "wide"])
+        yield "returns-nothing", result is None
+        yield "byte-mode-utf8-for-utf8-names", implies(is_utf8, eq(mode, "utf8"))
+        yield "byte-mode-wide-for-double-byte-cjk-names", implies(is_wide, eq(mode, "wide"))
+        yield "byte-mode-narrow-for-every-other-name", implies(neg(either(is_utf8, is_wide)), eq(mode, "narrow"))
+        # the DEC graphics translation is off exactly for UTF-8 -- whatever the state was before the call
+        yield "dec-special-off-for-utf8", implies(is_utf8, eq(dec, False))
+        yield "dec-special-on-for-double-byte-cjk", implies(is_wide, eq(dec, True))
+        yield "dec-special-on-for-single-byte", implies(neg(either(is_utf8, is_wide)), eq(dec, True))
+        yield "dec-special-iff-mode-is-not-utf8", eq(eq(dec, True), neg(eq(mode, "utf8")))
+        # the output codec: the (lower-cased) name when the codec registry knows it, else the ascii fallback
+
+        def target_ok(n):
+            low = n.lower()
+            if not low:
+                return eq(target, "ascii")
+            return both(implies(codec_known(low), eq(target, low)), implies(neg(codec_known(low)), eq(target, "ascii")))
+
+        yield "target-encoding-is-the-name-if-the-codec-exists-else-ascii", both(True, *[implies(enc == n, target_ok(n)) for n in ENC_NAMES])
+
+    def native_call(fn, kwargs):
+        from urwid import str_util, util
+        saved = (str_util.get_byte_encoding(), util._target_encoding, util._use_dec_special)
+        try:
+            for k in ("_byte_encoding", "_target_encoding", "_use_dec_special"):
+                v = kwargs.pop("g_" + k, None)
+                if v is not None:
+                    setattr(str_util if k == "_byte_encoding" else util, k, v)
+            r = fn(**kwargs)
+            _NATIVE_POST.update(_byte_encoding=str_util.get_byte_encoding(), _use_dec_special=util._use_dec_special, _target_encoding=util._target_encoding)
+            return r
+        finally:
+            str_util.set_byte_encoding(saved[0])
+            util._target_encoding, util._use_dec_special = saved[1], saved[2]
+
+
+_NATIVE_POST: dict = {}
